@@ -92,7 +92,7 @@ def run(ctx):
 
     # ------------------------------------------------------------ L1 tie (model vs anf.rs)
     tie_res = ctx.model("c09", [f"{k}\t{v}" for k, v in ties.items() if v]) if ties else {}
-    n_tie = n_tie_eq = fns = lift_fns = isa = frag = temps = 0
+    n_tie = n_tie_eq = fns = lift_fns = isa = frag = temps = filefrag = 0
     tie_samples = []
     notfrag = []
     for k, v in ties.items():
@@ -114,6 +114,7 @@ def run(ctx):
         lift_fns += int(kv.get("lift", 0))
         frag += int(kv.get("frag", 0))
         temps += int(kv.get("temps", 0))
+        filefrag += int(kv.get("filefrag", 0))
         a0, ap = int(kv.get("isA0", 0)), int(kv.get("isAP", 0))
         isa += ap
         if a0 != nf or ap != nf:
@@ -233,7 +234,7 @@ def run(ctx):
         "samples": samples + tie_samples,
         "tie_programs": n_tie, "tie_programs_equal(fresh gensym and pipeline)": n_tie_eq,
         "tie_functions": fns, "functions_in_Lift_sublanguage": lift_fns, "real_anf_functions_satisfying_isA": isa,
-        "functions_in_InAnfFragment": frag, "functions_outside_InAnfFragment(sample)": notfrag[:5],
+        "functions_in_InAnfFragment": frag, "files_in_FileInAnfFragment(hypothesis of anf_file_preserves_partial)": filefrag, "functions_outside_InAnfFragment(sample)": notfrag[:5],
         "temporaries_generated_by_model": temps,
         "effect_programs": len(runnable), "effect_programs_all_oracles_agree": n_agree,
         "expected_trace_checks": n_trace, "expected_trace_reproduced_by_core_stage": n_trace_ok,
@@ -249,6 +250,7 @@ def run(ctx):
         "`go`: outcomes are compared under the two schedules the semantics offers (activation runs to completion at the spawn; activation never runs before the "
         "spawner ends). Real goroutine interleavings at Ref operations and Go's memory model are outside the model",
         "theorems are about Model/Anf.lean; it speaks about anf.rs through the exact L1 tie (every run) — go/compile.rs statement lowering and go/dce.rs are validated by the oracle only (dce.rs is modelled by worker dce)",
+        "anf_preserves_partial / anf_file_preserves_partial: a source run that goes wrong (Fail.stuck: ill-typed IR) is only required to be matched by some outcome; typing of the IR is C03's property",
         "no source entity is spelled like an ANF temporary (C19 local_vs_temp_disjoint): hypothesis `tmpFresh` of anf_preserves, counted per function in coverage",
     ]
     tb = ["Lean 4 kernel", "axioms: " + ",".join(ctx.proof["axioms"] or ["none"]), "Sem/Go.Sem definitions",
